@@ -70,7 +70,7 @@ instance (np : Nat) (e : EntrySpec) : Decidable (WfEntry np e) := by unfold WfEn
 def WfTable (np : Nat) (t : TableSpec) : Prop :=
   t.ts < 4294967296 ∧ t.seq < 4294967296 ∧ t.plen ≤ (if t.v6 then 128 else 32) ∧
     t.pbytes.length = (t.plen + 7) / 8 ∧ hostZero t.plen t.pbytes = true ∧
-    t.entries ≠ [] ∧ t.entries.length < 65536 ∧ (∀ e ∈ t.entries, WfEntry np e) ∧
+    t.entries.length < 65536 ∧ (∀ e ∈ t.entries, WfEntry np e) ∧
     (encTableBody t).length < 4294967296
 
 instance (np : Nat) (t : TableSpec) : Decidable (WfTable np t) := by unfold WfTable; infer_instance
@@ -193,7 +193,7 @@ def TableSpec.hdr (t : TableSpec) : RibEntryHeader :=
 
 theorem parse_encTableBody (np : Nat) (t : TableSpec) (h : WfTable np t) :
     RibEntryHeader.parse t.v6 (encTableBody t) = .ok t.hdr := by
-  obtain ⟨_, hseq, hpl, hpb, hz, _, hn, _, _⟩ := h
+  obtain ⟨_, hseq, hpl, hpb, hz, hn, _, _⟩ := h
   simp only [RibEntryHeader.parse, encTableBody, rd32_be32 _ hseq, parsePrefix_enc t.v6 t.plen t.pbytes _ hpl hpb hz,
     rd16_be16 _ hn, TableSpec.hdr, TableSpec.pfx]
 
@@ -228,7 +228,7 @@ def TableSpec.cm (t : TableSpec) : CommonHeader :=
 
 theorem parse_encTable (np : Nat) (t : TableSpec) (rest : Bytes) (h : WfTable np t) :
     CommonHeader.parse (encTable t ++ rest) = .ok (t.cm, rest) := by
-  obtain ⟨hts, _, _, _, _, _, _, _, hlen⟩ := h
+  obtain ⟨hts, _, _, _, _, _, _, hlen⟩ := h
   exact parse_encRecord t.ts 13 _ (encTableBody t) rest hts (Or.inl rfl) (by split <;> omega) hlen
 
 /-! ### TableDumpIterator / SingleEntryIterator -/
@@ -295,7 +295,7 @@ def TableSpec.singles (t : TableSpec) : List SingleItem :=
   t.entries.map fun e => (t.pfx, e.peerIdx, e.attrs)
 
 theorem single_hdr (np : Nat) (t : TableSpec) (h : WfTable np t) : single t.hdr = .ok t.singles := by
-  obtain ⟨_, _, _, _, _, _, _, hes, _⟩ := h
+  obtain ⟨_, _, _, _, _, _, hes, _⟩ := h
   unfold single
   exact drain_single np t.pfx t.entries hes _
     (by have := length_le_flatMap encEntry t.entries (fun e _ => encEntry_length_pos e)
@@ -353,9 +353,26 @@ theorem ribTake_of_parts {peers : List PeerEntry} {s : RibIt} {table : RibEntryH
   rw [hc]
   simp only [he, hp, hf]
 
-theorem ribNext_of_load {peers : List PeerEntry} {s s' : RibIt} (h : ribLoad s = .ok (some s')) :
-    ribNext peers s = ribTake peers s' := by
-  unfold ribNext; rw [h]
+theorem ribNextF_succ (peers : List PeerEntry) (f : Nat) (s : RibIt) :
+    ribNextF peers (f + 1) s =
+      match ribLoad s with
+      | .ok none => .ok none
+      | .ok (some s') =>
+        match s'.cur with
+        | none => .panic
+        | some table =>
+          if table.entries.isEmpty then ribNextF peers f ⟨s'.rest, none, s'.fam⟩
+          else ribTake peers s'
+      | .err => .err
+      | .panic => .panic := rfl
+
+/-- with a current table that has entries, `next` is its second half -/
+theorem ribNext_of_cur {peers : List PeerEntry} {s : RibIt} {table : RibEntryHeader}
+    (hc : s.cur = some table) (hne : table.entries.isEmpty = false) :
+    ribNext peers s = ribTake peers s := by
+  unfold ribNext
+  rw [ribNextF_succ, ribLoad_cur hc]
+  simp [hc, hne]
 
 /-- taking the next entry `e` of the current table -/
 theorem ribTake_entry (peers : List PeerEntry) (t : TableSpec) (R : Bytes) (e : EntrySpec)
@@ -382,11 +399,73 @@ theorem drain_rib_tail (peers : List PeerEntry) (t : TableSpec) (R : Bytes) (l :
       simp [curOf]
     rw [hcur, List.length_cons, ← Nat.add_assoc, List.map_cons, List.cons_append]
     refine drain_some _ ?_ (ih (fun q hq => hes q (by simp [hq])))
-    rw [ribNext_of_load (ribLoad_cur rfl)]
+    rw [ribNext_of_cur (table := { t.hdr with entries := encEntries (e :: es) }) rfl
+      (by simp [encEntries_isEmpty])]
     exact ribTake_entry peers t R e es (hes e (by simp))
 
 /-- number of entries in a list of tables -/
 def totalEntries (ts : List TableSpec) : Nat := (ts.map fun t => t.entries.length).sum
+
+/-- what the first `next()` on the tables `ts` (no table current) returns: the first entry of
+the first table that has one -/
+def nextSpec (peers : List PeerEntry) : List TableSpec → Option (RibItem × RibIt)
+  | [] => none
+  | t :: ts =>
+    match t.entries with
+    | [] => nextSpec peers ts
+    | e :: es => some (ribItem peers t e, ⟨encTables ts, curOf t es, some t.v6⟩)
+
+theorem ribNextF_tables (peers : List PeerEntry) (ts : List TableSpec)
+    (hts : ∀ t ∈ ts, WfTable peers.length t) (fam : Option Bool) (f : Nat) (hf : ts.length < f) :
+    ribNextF peers f ⟨encTables ts, none, fam⟩ = .ok (nextSpec peers ts) := by
+  induction ts generalizing fam f with
+  | nil =>
+    obtain ⟨n, rfl⟩ : ∃ n, f = n + 1 := ⟨f - 1, by simp at hf; omega⟩
+    rw [ribNextF_succ]
+    simp [ribLoad, encTables, nextSpec]
+  | cons t ts ih =>
+    obtain ⟨n, rfl⟩ : ∃ n, f = n + 1 := ⟨f - 1, by simp at hf; omega⟩
+    have ht := hts t (by simp)
+    have hload : ribLoad ⟨encTables (t :: ts), none, fam⟩
+        = .ok (some ⟨encTables ts, some t.hdr, some t.v6⟩) := by
+      rw [encTables_cons]
+      exact ribLoad_of_parts (m := t.cm) t.v6 rfl (encRecord_ne_nil _ _ _ _ _)
+        (parse_encTable _ t _ ht) rfl rfl (parse_encTableBody _ t ht)
+    rw [ribNextF_succ, hload]
+    dsimp only
+    match hE : t.entries with
+    | [] =>
+      have h0 : t.hdr.entries.isEmpty = true := by simp [TableSpec.hdr, hE, encEntries]
+      simp only [h0, if_true, nextSpec, hE]
+      exact ih (fun q hq => hts q (by simp [hq])) _ n (by simp at hf; omega)
+    | e :: es =>
+      have h0 : t.hdr.entries.isEmpty = false := by
+        simp only [TableSpec.hdr, encEntries_isEmpty, hE]; rfl
+      have hhdr : t.hdr = { t.hdr with entries := encEntries (e :: es) } := by
+        simp [TableSpec.hdr, hE]
+      simp only [h0, nextSpec, hE]
+      have hes := ht.2.2.2.2.2.2.1
+      rw [hE] at hes
+      have := ribTake_entry peers t (encTables ts) e es (hes e (by simp))
+      rw [← hhdr] at this
+      simpa using this
+
+theorem encTables_length_ge (ts : List TableSpec) : ts.length ≤ (encTables ts).length := by
+  induction ts with
+  | nil => simp [encTables]
+  | cons t ts ih =>
+    have : 1 ≤ (encTable t).length := by simp [encTable, encRecord]; omega
+    simp only [encTables_cons, List.length_append, List.length_cons]; omega
+
+theorem ribNext_tables (peers : List PeerEntry) (ts : List TableSpec)
+    (hts : ∀ t ∈ ts, WfTable peers.length t) (fam : Option Bool) :
+    ribNext peers ⟨encTables ts, none, fam⟩ = .ok (nextSpec peers ts) := by
+  unfold ribNext
+  exact ribNextF_tables peers ts hts fam _ (by have := encTables_length_ge ts; simp only; omega)
+
+theorem drain_congr {σ α} {next : σ → Outcome (Option (α × σ))} {s s' : σ} (n : Nat)
+    (h : next s = next s') : drain next (n + 1) s = drain next (n + 1) s' := by
+  simp only [drain, h]
 
 theorem drain_rib_tables (peers : List PeerEntry) (ts : List TableSpec)
     (hts : ∀ t ∈ ts, WfTable peers.length t) (fam : Option Bool) (fuel : Nat) (hf : 1 ≤ fuel) :
@@ -395,25 +474,27 @@ theorem drain_rib_tables (peers : List PeerEntry) (ts : List TableSpec)
   induction ts generalizing fam with
   | nil =>
     obtain ⟨n, rfl⟩ : ∃ n, fuel = n + 1 := ⟨fuel - 1, by omega⟩
-    exact drain_none _ (by simp [ribNext, ribLoad, encTables])
+    exact drain_none _ (by rw [ribNext_tables peers [] (by simp)]; rfl)
   | cons t ts ih =>
     have ht := hts t (by simp)
-    obtain ⟨_, _, _, _, _, hne, _, hes, _⟩ := id ht
-    match hE : t.entries, hne with
-    | e :: es, _ =>
-      have hload : ribLoad ⟨encTables (t :: ts), none, fam⟩
-          = .ok (some ⟨encTables ts, some t.hdr, some t.v6⟩) := by
-        rw [encTables_cons]
-        exact ribLoad_of_parts (m := t.cm) t.v6 rfl (encRecord_ne_nil _ _ _ _ _)
-          (parse_encTable _ t _ ht) rfl rfl (parse_encTableBody _ t ht)
-      have hhdr : t.hdr = { t.hdr with entries := encEntries (e :: es) } := by
-        simp [TableSpec.hdr, hE]
+    have hes := ht.2.2.2.2.2.2.1
+    have hts' : ∀ q ∈ ts, WfTable peers.length q := fun q hq => hts q (by simp [hq])
+    match hE : t.entries with
+    | [] =>
+      have hfuel : fuel + totalEntries (t :: ts) = fuel + totalEntries ts := by
+        simp [totalEntries, hE]
+      obtain ⟨n, hn⟩ : ∃ n, fuel + totalEntries ts = n + 1 := ⟨fuel + totalEntries ts - 1, by omega⟩
+      rw [hfuel, List.flatMap_cons, hE, List.map_nil, List.nil_append, ← ih hts' fam, hn]
+      refine drain_congr n ?_
+      rw [ribNext_tables peers (t :: ts) hts, ribNext_tables peers ts hts']
+      simp [nextSpec, hE]
+    | e :: es =>
       have hstep : ribNext peers ⟨encTables (t :: ts), none, fam⟩
           = .ok (some (ribItem peers t e, ⟨encTables ts, curOf t es, some t.v6⟩)) := by
-        rw [ribNext_of_load hload, hhdr]
-        exact ribTake_entry peers t _ e es (by rw [hE] at hes; exact hes e (by simp))
+        rw [ribNext_tables peers (t :: ts) hts]
+        simp [nextSpec, hE]
       have hrest := drain_rib_tail peers t (encTables ts) _ (fuel + totalEntries ts)
-        (ih (fun q hq => hts q (by simp [hq])) (some t.v6)) es
+        (ih hts' (some t.v6)) es
         (by rw [hE] at hes; exact fun q hq => hes q (by simp [hq]))
       have hfuel : fuel + totalEntries (t :: ts) = (fuel + totalEntries ts + es.length) + 1 := by
         simp [totalEntries, hE]; omega
